@@ -1,5 +1,6 @@
 import UgoVerif.Proofs.CompileSat
 import UgoVerif.Proofs.CompileWalk
+import UgoVerif.Proofs.CompileScan
 /-
   C05: the invariant of the compiler state under which no Go panic is reachable, the relation
   between the state before and after a compile step, and the facts about the primitive operations.
@@ -148,8 +149,15 @@ def StreamOK (nc : Nat) (a : Array UInt8) : Prop := Walk a 0 a.size ∧ TargetsO
 theorem StreamOK.mono {nc nc' : Nat} {a : Array UInt8} (h : StreamOK nc a) (hn : nc ≤ nc') : StreamOK nc' a :=
   ⟨h.1, h.2.mono hn⟩
 
+/-- the stream of a finished function (`Bytecode()`): moreover every jump target lies strictly
+    inside the stream and the last instruction is RETURN -/
+def FinStream (nc : Nat) (a : Array UInt8) : Prop := StreamOK nc a ∧ JumpsStrict a ∧ EndsInReturn a
+
+theorem FinStream.mono {nc nc' : Nat} {a : Array UInt8} (h : FinStream nc a) (hn : nc ≤ nc') : FinStream nc' a :=
+  ⟨h.1.mono hn, h.2⟩
+
 /-- a compiled function in the constant pool: its locals fit the frame, its stream is fine -/
-def FnOK (nc : Nat) (f : CFn) : Prop := f.numLocals ≤ 256 ∧ StreamOK nc f.insts
+def FnOK (nc : Nat) (f : CFn) : Prop := f.numLocals ≤ 256 ∧ FinStream nc f.insts
 def ConstsOK (cs : Array Const) : Prop := ∀ c ∈ cs.toList, ∀ f, c = .fn f → FnOK cs.size f
 
 theorem ConstsOK.push {cs : Array Const} (h : ConstsOK cs) {c : Const} (hc : ∀ f, c = .fn f → FnOK (cs.size + 1) f) :
@@ -423,7 +431,8 @@ theorem StaticArgs.argsOK {op : Nat} {args : List Int} (h : StaticArgs op args) 
 theorem sat_emit {pos : Pos} {op : Nat} {args : List Int} {s : CState} {Q : Nat → CState → Prop}
     (hs : Inv s) (hop : op < numOpcodes) (harg : ArgsOK s.constants.size s.insts op args)
     (h : ∀ s', Inv s' → Rel s s' → Bd s'.insts s.insts.size → s'.tables = s.tables →
-      (∃ opb, s'.insts[s.insts.size]? = some opb ∧ opb.toNat = op) → Q s.insts.size s') :
+      (∃ opb, s'.insts[s.insts.size]? = some opb ∧ opb.toNat = op) →
+      s'.insts.size = s.insts.size + 1 + opWidth op → Q s.insts.size s') :
     Sat (emit pos op args) s Q := by
   unfold emit
   rw [if_neg (by omega)]
@@ -454,10 +463,11 @@ theorem sat_emit {pos : Pos} {op : Nat} {args : List Int} {s : CState} {Q : Nat 
       simp [UInt8.toNat_ofNat']
       unfold numOpcodes at hop
       omega
+    · simp [hl]; omega
 
 theorem good_emit {pos : Pos} {op : Nat} {args : List Int} (hop : op < numOpcodes) (ha : StaticArgs op args) :
     Good (emit pos op args) :=
-  fun s hs => sat_emit hs hop (ha.argsOK _ s.insts) fun _ h1 h2 _ _ _ => ⟨h1, h2, trivial⟩
+  fun s hs => sat_emit hs hop (ha.argsOK _ s.insts) fun _ h1 h2 _ _ _ _ => ⟨h1, h2, trivial⟩
 
 theorem good_emit_ {pos : Pos} {op : Nat} {args : List Int} (hop : op < numOpcodes) (ha : StaticArgs op args) :
     Good (emit_ pos op args) := by
@@ -568,7 +578,7 @@ theorem st_emit_tgt_bind {β} {pos : Pos} {op : Nat} {args : List Int} {f : Nat 
       · exact ha.argsOK _ _
       · exact ha.1.argsOK hst.tgt (makeInstruction_len hm) ha.2
     apply sat_emit hst.inv hop harg
-    intro s' h1 h2 h3 _ h5
+    intro s' h1 h2 h3 _ h5 _
     have h4 := hst.step h1 h2
     apply h
     · refine ⟨h4.inv, h4.rel, h4.pend, ?_⟩
